@@ -73,6 +73,35 @@ def np_identity(interp, args, kwargs, node):
     raise AnalysisError("AXTYPE", "np.identity/np.eye with this argument is not modelled", interp.where(node))
 
 
+def arr_getitem(interp, base, idx, node):
+    """Constant row/column of a shell attribute array: norm_cont[:, k] (the norm of every segment for component k) or
+    norm_cont[m] (the norms of one segment)."""
+    if isinstance(base, Arr) and base.content is not None and base.content[0] == "attr" and base.ndim_known:
+        ix = idx if isinstance(idx, tuple) else (idx,)
+        if len(ix) <= len(base.axes) and all(isinstance(i, int) and not isinstance(i, bool) or (isinstance(i, slice) and i == slice(None)) for i in ix):
+            ix = list(ix) + [slice(None)] * (len(base.axes) - len(ix))
+            axes = []
+            hist = list(base.history)
+            for ax, i in zip(base.axes, ix):
+                if isinstance(i, slice):
+                    axes.append(ax)
+                else:
+                    kind = ax[1][0] if ax[0] == "dim" else "?"
+                    hist.append(("pick", kind, i))
+            return Arr(axes, base.content, hist, base.dtype, base.conj)
+    raise AnalysisError("AXTYPE", f"construct not modelled: subscript of {base!r}", interp.where(node))
+
+
+def np_repeat_tile(which):
+    def h(interp, args, kwargs, node):
+        if len(args) == 2 and not kwargs and isinstance(args[0], Arr) and len(args[0].axes) == 1 and isinstance(args[1], Size) and len(args[1].axes) == 1:
+            a, n = args[0].axes[0], args[1].axes[0]
+            flat = (a, n) if which == "repeat" else (n, a)  # repeat: each element n times in a row; tile: the vector n times
+            return Arr([("flat", flat)], args[0].content, tuple(args[0].history) + (("spread", which, n),), args[0].dtype, args[0].conj)
+        raise AnalysisError("AXTYPE", f"np.{which} with these arguments is not modelled", interp.where(node))
+    return h
+
+
 class SphLabels:
     def __init__(self, shell):
         self.shell = shell
@@ -148,6 +177,9 @@ class Assembly:
         it.hooks["compare"] = compare_shell_int
         it.hooks[("ext", "numpy.identity")] = np_identity
         it.hooks[("ext", "numpy.eye")] = np_identity
+        it.hooks[("ext", "numpy.repeat")] = np_repeat_tile("repeat")
+        it.hooks[("ext", "numpy.tile")] = np_repeat_tile("tile")
+        it.hooks["getitem"] = arr_getitem
         it.kernel_calls = []
         it.oracle = {}
         it.oracle_new = []
@@ -234,6 +266,20 @@ def leaves(arr, nidx):
     return res
 
 
+def _is_column_spread(extra, shell):
+    """history suffix of a norm factor: ('pick', 'L', k) [one column = the per-segment norm], optionally followed by one
+    ('spread', 'repeat'|'tile', axis) over that shell's own component axis (the order is checked on the axes)"""
+    if not extra or extra[0][0] != "pick" or extra[0][1] != "L":
+        return False
+    rest = extra[1:]
+    if not rest:
+        return True
+    if len(rest) == 1 and rest[0][0] == "spread":
+        ax = rest[0][2]
+        return ax[0] == "dim" and ax[1][0] in ("L", "S") and ax[1][1] == shell
+    return False
+
+
 def check_block(kind, index, leaf, shell_lists, types_lists, kwargs_expected):
     """Contract for one block.  Returns (ok, message, descriptor)."""
     nidx = len(index)
@@ -286,6 +332,15 @@ def check_block(kind, index, leaf, shell_lists, types_lists, kwargs_expected):
         if want_types[m] == "spherical":
             want.append(("sph", s, p))
         got = [h[:4] if h[0] == "mul" else h for h in mine]
+        # norm_cont[m, l] does not depend on the component l (the (2a-1)!! of primitive norm and self-overlap cancel): a column of
+        # it, spread over the shell's own components, is the same factor, and it commutes with the transformation
+        colspread = [h for h in mine if h[0] == "mul" and _is_column_spread(h[4:], s)]
+        if want_types[m] == "spherical" and len(colspread) == 1 and got == [want[1], want[0]]:
+            got = want
+        rowpick = [x for h in mine if h[0] == "mul" for x in h[4:] if isinstance(x, tuple) and x[:2] == ("pick", "M")]
+        if rowpick:
+            return False, (f"block {index}: index position {p} (shell {s}) is normalised with the contraction norms of segment {rowpick[0][2]} only "
+                           f"(norm_cont[{rowpick[0][2]}]): every other segment of a generalized contraction gets the wrong norm"), None
         if got != want:
             return False, (f"block {index}: operations applied to index position {p} (shell {s}, {want_types[m]}) are {got}; expected "
                            f"exactly {want} in this order (contraction norm once, before the Cartesian->spherical transform)"), None
@@ -293,7 +348,7 @@ def check_block(kind, index, leaf, shell_lists, types_lists, kwargs_expected):
     if extra:
         return False, f"block {index}: unexpected operations {extra}", None
     for h in leaf.history:
-        if h[0] == "mul" and len(h) > 4:
+        if h[0] == "mul" and len(h) > 4 and not _is_column_spread(h[4:], h[2]):
             return False, f"block {index}: the contraction norm was modified before use: {h[4:]}", None
     is_swap = tuple(perm) != tuple(range(nidx))
     desc = (tuple(kshells), tuple(perm), leaf.conj, tuple(want_types))
